@@ -13,8 +13,7 @@ def build(parents, order=None):
 
 
 def queries_all(n, pairs=True):
-    """every structural query; the ones hit by recorded findings (leavesUnder, mrca) come last, because
-    the check stops judging a case at its first (known) failure"""
+    """every structural query"""
     ops = ["t.valid"]
     for a in range(n):
         ops += ["t.qn %d" % a, "t.subN %d" % a, "t.subE %d" % a]
@@ -61,15 +60,34 @@ def generate(seed, tier):
                     ops.append("t.qn %d" % a)
                 for a in range(min(n, 4)):
                     ops += ["t.path %d %d 1" % (a, r), "t.epath %d %d" % (r, a)]
-                # a second re-rooting of the still rooted tree, then (recorded finding: unrooted re-rooting) un-root and re-root
+                # a second re-rooting of the still rooted tree, then un-root and re-root
                 ops += ["t.rootAt %d" % ((r + 1) % n), "t.valid", "t.qn %d" % r]
                 for a in range(min(n, 4)):
                     ops.append("t.mrca %d %d" % (a, r))
                 if n >= 3:
                     ops.append("t.mrca 0 1 2")
                 ops += ["t.unRoot 0", "t.valid", "t.rootAt %d" % r, "t.valid", "t.qn %d" % r]
+                for a in range(n):
+                    ops.append("t.qn %d" % a)
+                ops += ["t.subN %d" % r, "t.leavesUnder %d" % r]
                 cases.append(["case root%d dir" % k] + ops)
                 k += 1
+            # the same shape built unrooted with the relations given in a shuffled order and direction, rooted at every node
+            if n >= 2:
+                for r in range(n):
+                    ops = ["t.createNode"] * n
+                    idx = list(range(1, n)); rng.shuffle(idx)
+                    for i in idx:
+                        a, b = pv[i - 1], i
+                        if rng.random() < 0.5:
+                            a, b = b, a
+                        ops.append("t.link %d %d" % (a, b))
+                    ops += ["t.setRoot %d" % rng.randrange(n), "t.valid", "t.rootAt %d" % r, "t.valid"]
+                    for a in range(n):
+                        ops.append("t.qn %d" % a)
+                    ops += ["t.subN %d" % r, "t.subE %d" % r, "t.leavesUnder %d" % r]
+                    cases.append(["case uroot%d undir" % k] + ops)
+                    k += 1
     # 2. random trees up to 12 nodes with arbitrary labels: queries on random pairs / subsets, re-rootings
     nrand = 3000 if tier == "thorough" else 400
     for i in range(nrand):
@@ -80,6 +98,8 @@ def generate(seed, tier):
         for c in kids:
             ops.append("t.link %d %d" % (par[c], c))
         ops += ["t.setRoot %d" % root, "t.valid"]
+        if i % 4 == 3:
+            ops += ["t.unRoot 0", "t.valid", "t.rootAt %d" % rng.randrange(n), "t.valid"]
         for _ in range(12):
             r = rng.random()
             a, b = rng.randrange(n), rng.randrange(n)
@@ -113,8 +133,11 @@ def generate(seed, tier):
                 ops.append("t.addSon %d %d" % (a, b))
             elif r < 0.34:
                 ops.append("t.setFather %d %d" % (a, b))
-            elif r < 0.42:
+            elif r < 0.40:
                 ops.append("t.removeSon %d %d" % (a, b))
+            elif r < 0.42:
+                ops.append(rng.choice(["t.removeSons %d" % a, "t.setFatherE %d %d %d" % (a, b, rng.randint(0, 12)),
+                                       "t.addSonE %d %d %d" % (a, b, rng.randint(0, 12))]))
             elif r < 0.47:
                 ops.append("t.deleteNode %d" % a)
             elif r < 0.55:
@@ -141,6 +164,140 @@ def generate(seed, tier):
                 ops.append(rng.choice(["t.leavesUnder %d", "t.subN %d", "t.subE %d"]) % a)
         ops.append("t.valid")
         cases.append(["case hist%d %s" % (i, "dir" if directed else "undir")] + ops)
+    cases += dag_cases(rng, tier)
+    cases += obs_cases(rng, tier)
+    return cases
+
+
+def dag_queries(rng, n, full):
+    ops = ["d.valid", "d.rooted"]
+    nodes = range(n) if full else rng.sample(range(n), min(n, 2))
+    for a in nodes:
+        ops += ["d.qn %d" % a, "d.belowN %d" % a, "d.belowE %d" % a, "d.leavesUnder %d" % a]
+    return ops
+
+
+def dag_cases(rng, tier):
+    """every DAG on n nodes is isomorphic to one whose relations go from a lower to a higher node: all
+    subsets of the n(n-1)/2 forward relations (n <= 4 quick, n <= 6 thorough), linked in a shuffled order,
+    queried, then closed into a cycle by one backward relation and queried again; random graphs;
+    histories mixing DAG edits with validity / rootedness queries"""
+    cases = []
+    k = 0
+    nmax = 6 if tier == "thorough" else 4
+    for n in range(0, nmax + 1):
+        pairs = [(a, b) for a in range(n) for b in range(a + 1, n)]
+        for mask in range(1 << len(pairs)):
+            es = [p for i, p in enumerate(pairs) if mask >> i & 1]
+            rng.shuffle(es)
+            ops = ["d.createNode"] * n
+            for (a, b) in es:
+                ops.append(rng.choice(["d.addSon %d %d", "d.link %d %d"]) % (a, b) if rng.random() < 0.7 else "d.addFather %d %d" % (b, a))
+            ops += dag_queries(rng, n, n <= 4)
+            if es and (n <= 4 or mask % 7 == 0):
+                # a backward relation along an existing path makes a cycle; elsewhere it may not
+                a, b = rng.choice(es)
+                ops += ["d.addSon %d %d" % (b, a), "d.valid", "d.rooted", "d.removeSon %d %d" % (b, a), "d.valid"]
+            cases.append(["case dagall%d dag" % k] + ops)
+            k += 1
+    nrand = 1500 if tier == "thorough" else 250
+    for i in range(nrand):
+        n = rng.randint(1, 7)
+        ops = ["d.createNode"] * n
+        nn = n
+        L = rng.randint(4, 28)
+        while len(ops) < L:
+            r = rng.random()
+            a, b = rng.randint(0, nn), rng.randint(0, nn)
+            if r < 0.06 and nn < 8:
+                ops.append("d.createNode"); nn += 1
+            elif r < 0.30:
+                ops.append("d.addSon %d %d" % (a, b))
+            elif r < 0.40:
+                ops.append("d.addFather %d %d" % (a, b))
+            elif r < 0.44:
+                ops.append(rng.choice(["d.addSonE %d %d %d", "d.addFatherE %d %d %d", "d.linkE %d %d %d"]) % (a, b, rng.randint(0, 12)))
+            elif r < 0.50:
+                ops.append("d.removeSon %d %d" % (a, b))
+            elif r < 0.56:
+                ops.append("d.removeFather %d %d" % (a, b))
+            elif r < 0.59:
+                ops.append(rng.choice(["d.removeSons %d", "d.removeFathers %d"]) % a)
+            elif r < 0.63:
+                ops.append("d.deleteNode %d" % a)
+            elif r < 0.66:
+                ops.append(rng.choice(["d.link %d %d", "d.unlink %d %d"]) % (a, b))
+            elif r < 0.68:
+                ops.append("d.setRoot %d" % a)
+            elif r < 0.80:
+                ops.append("d.valid")
+            elif r < 0.90:
+                ops.append("d.rooted")
+            elif r < 0.94:
+                ops.append("d.qn %d" % a)
+            else:
+                ops.append(rng.choice(["d.belowN %d", "d.belowE %d", "d.leavesUnder %d"]) % a)
+        ops += ["d.valid", "d.rooted"]
+        cases.append(["case daghist%d dag" % i] + ops)
+    return cases
+
+
+def obs_cases(rng, tier):
+    """the tree observer: node objects 0..n-1 (labels), edge objects; trees built through createNode / link /
+    addSon / setFather with and without edge objects, moved around with setFather (with the object of the
+    current branch, a fresh one, one attached elsewhere, none), re-rooted, with validity queries in between"""
+    cases = []
+    nobs = 1500 if tier == "thorough" else 300
+    for i in range(nobs):
+        rooted = rng.random() < 0.85
+        n = rng.randint(2, 7)
+        ops = ["o.createNode %d" % a for a in range(n)]
+        free_obj = list(range(12)); rng.shuffle(free_obj)
+        def obj():
+            r = rng.random()
+            if r < 0.15:
+                return "-"
+            if r < 0.75 and free_obj:
+                return str(free_obj.pop())
+            return str(rng.randrange(12))
+        # a random tree, each branch made by one of the three ways
+        perm = list(range(n)); rng.shuffle(perm)
+        for j in range(1, n):
+            f, s = perm[rng.randrange(j)], perm[j]
+            w = rng.random()
+            if w < 0.35:
+                ops.append("o.addSon %d %d %s" % (f, s, obj()))
+            elif w < 0.7:
+                ops.append("o.setFather %d %d %s" % (s, f, obj()))
+            else:
+                ops.append("o.link %d %d %s" % (f, s, obj()))
+        ops.append("o.valid")
+        L = rng.randint(3, 14)
+        for _ in range(L):
+            r = rng.random()
+            a, b = rng.randint(0, n), rng.randint(0, n)
+            if r < 0.40:
+                # move a node: often with the object of its current branch (the typical use)
+                ops.append("o.qn %d" % a)
+                if rng.random() < 0.4:
+                    ops.append("o.setFatherCur %d %d" % (a, b))
+                else:
+                    ops.append("o.setFather %d %d %s" % (a, b, obj()))
+                ops.append("o.qp %d %d" % (b, a))
+            elif r < 0.52:
+                ops.append("o.addSon %d %d %s" % (a, b, obj()))
+            elif r < 0.60:
+                ops.append("o.unlink %d %d" % (a, b))
+            elif r < 0.64:
+                ops.append("o.deleteNode %d" % a)
+            elif r < 0.74:
+                ops += ["o.rootAt %d" % a, "o.valid"]
+            elif r < 0.86:
+                ops.append("o.valid")
+            else:
+                ops.append("o.qn %d" % a)
+        ops.append("o.valid")
+        cases.append(["case obs%d %s" % (i, "obsdir" if rooted else "obsundir")] + ops)
     return cases
 
 
